@@ -18,7 +18,7 @@ COMMENT_TEXTS = [
 DEFAULTS = dict(
     p_full=0.12, p_trailing=0.12, p_blank=0.05, p_cont=0.15, p_cont_comment=0.3, p_cont_between=0.2,
     p_lead_amp=0.5, p_semi=0.0, p_case=0.0, p_name_case=0.0, p_str_split=0.0, indent="depth",
-    comments=True, max_breaks=3, p_trailing_semi=0.0, p_tab=0.0,
+    comments=True, max_breaks=3, p_trailing_semi=0.0, p_tab=0.0, p_tok_split=0.0,
 )
 
 
@@ -63,6 +63,19 @@ def split_points(text):
     pts = [a for k, (_, _, a, _) in enumerate(spans) if k > 0 and spans[k - 1][1] != "K"]
     strs = [(a, b) for (_, cls, a, b) in spans if cls == "S" and b - a >= 4]
     return pts, strs
+
+
+def token_interiors(text):
+    """Offsets strictly inside a lexical token other than a character literal (names, keywords, numbers, multi-
+    character operators): a token may be split there by '&' at the very end of the line and '&' as the first
+    non-blank character of the next."""
+    out = []
+    spans = lex_spans(text)
+    skip = 1 + (1 if spans and spans[0][0].isdigit() else 0)      # not inside the label / the leading name
+    for (tok, cls, a, b) in spans[skip:]:
+        if cls not in ("S", "C") and b - a >= 2:
+            out.extend(range(a + 1, b))
+    return out
 
 
 def _str_split_ok(text, pos, lead):
@@ -144,6 +157,10 @@ def render(P, rng, opts=None):
                     for p in range(a + 1, b - 1):
                         if rng.random() < o["p_str_split"]:
                             cands.append((p, True))
+            if o.get("p_tok_split", 0) > 0:
+                for p in token_interiors(text):
+                    if rng.random() < o["p_tok_split"]:
+                        cands.append((p, 2))
             if cands:
                 k = rng.randint(1, min(o["max_breaks"], len(cands)))
                 chosen = sorted(rng.sample(cands, k))
@@ -163,7 +180,7 @@ def render(P, rng, opts=None):
                     else:
                         instr_before = flags[pi - 1]
                         need_lead = instr_before and piece[:1] in ("&", "!", " ", "\t", "")
-                        lead = need_lead or rng.random() < o["p_lead_amp"]
+                        lead = need_lead or instr_before == 2 or rng.random() < o["p_lead_amp"]
                         if instr_before:
                             # nothing may stand between the '&' and the rest of the literal;
                             # without a leading '&' the literal resumes in column 1
